@@ -275,9 +275,71 @@ Proof.
   change (N.to_nat 4) with 4%nat. unfold nthN. change (N.to_nat 8) with 8%nat.
   unfold p_low_order_first.
   set (b4 := beq (firstn 4 d) _). set (adb := beq (firstn 3 (skipn 9 d)) [97; 100; 98]).
+  destruct (eEmd e); cbn [Bool.eqb];
   destruct (N.eqb_spec (nth 8 d 0) 84) as [E84|E84]; destruct (N.eqb_spec (nth 8 d 0) 70) as [E70|E70];
     try (exfalso; rewrite E84 in E70; discriminate);
-    destruct (eEmd e), adb, b4; cbn; intuition congruence.
+    destruct adb, b4; cbn; intuition congruence.
 Qed.
 
 End AES.
+
+(* ---- packaging for Property.v ---- *)
+(* the lemmas of the section are generalised over all its variables; the ones a lemma does not mention are arbitrary *)
+Ltac section_args := first [eassumption | exact (fun _ _ x => x) | exact (fun _ x => x) | exact (fun _ => None)].
+
+Definition prims_ok (sha256 sha384 sha512 : bytes -> bytes) (aes_cbc_enc : bytes -> bytes -> bytes -> bytes) : Prop :=
+  (forall x, length (sha256 x) = 32%nat) /\ (forall x, length (sha384 x) = 48%nat) /\
+  (forall x, length (sha512 x) = 64%nat) /\ (forall k iv d, Forall (fun b => b < 256) (aes_cbc_enc k iv d)).
+
+(* ---- witnesses: toy primitives that satisfy prims_ok (they are NOT SHA-2/AES; they only show that the
+   hypotheses of the _partial theorems cannot be dropped, whatever the primitives are) ---- *)
+Definition toy_hash (n : nat) (x : bytes) : bytes := firstn n (x ++ repeat 0 n) ++ [N.of_nat (length x) mod 256].
+Definition toy_cbc (k iv d : bytes) : bytes := map (fun b => b mod 256) d.
+
+Lemma toy_hash_length n x : length (toy_hash n x) = S n.
+Proof.
+  unfold toy_hash. rewrite app_length, firstn_length, app_length, repeat_length. cbn [length]. lia.
+Qed.
+
+Lemma toy_prims_ok : prims_ok (toy_hash 31) (toy_hash 47) (toy_hash 63) toy_cbc.
+Proof.
+  repeat split; try (intros x; apply toy_hash_length).
+  intros k iv d. unfold toy_cbc. apply Forall_forall. intros b Hb. apply in_map_iff in Hb.
+  destruct Hb as [a [<- _]]. apply N.mod_lt. lia.
+Qed.
+
+Definition pw128 : bytes := repeat 120 128.
+Definition salt_a : bytes := [1; 2; 3; 4; 5; 6; 7; 8].
+Definition salt_b : bytes := [9; 10; 11; 12; 13; 14; 15; 16].
+
+(* a 128-byte user password: SASLprep leaves it alone, the specification truncates it to 127 bytes, the code does not *)
+Lemma calc_truncation_witness :
+  let saslprep := fun x : bytes => Some x in
+  c_calc_ou_aes (toy_hash 31) (toy_hash 47) (toy_hash 63) toy_cbc 5 pw128 [111] (salt_a ++ salt_b) (salt_a ++ salt_b) (repeat 7 32)
+  <> spec_calc (toy_hash 31) (toy_hash 47) (toy_hash 63) toy_cbc saslprep 5 pw128 [111] salt_a salt_b salt_a salt_b (repeat 7 32).
+Proof. vm_compute. intros H. discriminate H. Qed.
+
+(* the reader: a password SASLprep accepts unchanged, a preparation that rejects it *)
+Definition toy_enc_user (pw : bytes) : enc :=
+  mkEnc [] (toy_hash 31 (pw ++ salt_a) ++ salt_a ++ salt_b) [] (repeat 0 32) [] 256 0%Z 5 true [].
+
+Lemma prep_witness :
+  let saslprep := fun x : bytes => Some x in
+  let prep := fun x : bytes => if existsb (N.eqb 32) x then None else Some x in
+  let pw := [109; 121; 32; 112; 97; 115; 115] in
+  saslprep pw = Some pw /\
+  fst (spec_validate_user (toy_hash 31) (toy_hash 47) (toy_hash 63) toy_cbc toy_cbc saslprep 5 pw (eU (toy_enc_user pw)) (eUE (toy_enc_user pw))) = VOk /\
+  fst (c_validate_user_aes (toy_hash 31) (toy_hash 47) (toy_hash 63) toy_cbc toy_cbc prep pw (toy_enc_user pw)) = VErr.
+Proof. vm_compute. repeat split. Qed.
+
+(* the reader: the empty owner password of a document whose owner password is empty *)
+Definition toy_enc_owner_empty : enc :=
+  let U := repeat 1 48 in
+  mkEnc (toy_hash 31 ([] ++ salt_a ++ U) ++ salt_a ++ salt_b) U (repeat 0 32) [] [] 256 0%Z 5 true [].
+
+Lemma empty_owner_witness :
+  let saslprep := fun x : bytes => Some x in
+  fst (spec_validate_owner (toy_hash 31) (toy_hash 47) (toy_hash 63) toy_cbc toy_cbc saslprep 5 []
+         (eO toy_enc_owner_empty) (eOE toy_enc_owner_empty) (eU toy_enc_owner_empty)) = VOk /\
+  fst (c_validate_owner_aes (toy_hash 31) (toy_hash 47) (toy_hash 63) toy_cbc toy_cbc saslprep [] toy_enc_owner_empty) = VNo.
+Proof. vm_compute. split; reflexivity. Qed.
